@@ -555,3 +555,15 @@ def rerun(path):
         return 1
     print('not reproduced on the current tree')
     return 0
+
+
+def run_scripts(repo, scripts, vars_=(), small_set=False, timeout=300):
+    """compile + run scripts on the real code of `repo` (fake lights, fake clock); see tools/run_script.py"""
+    with tempfile.TemporaryDirectory() as td:
+        jp, op = os.path.join(td, 'job.json'), os.path.join(td, 'out.json')
+        json.dump({'scripts': list(scripts), 'vars': list(vars_), 'small_set': small_set}, open(jp, 'w'))
+        p = subprocess.run([PY_REAL, os.path.join(VERIF, 'tools', 'run_script.py'), repo, jp, op],
+                           capture_output=True, text=True, timeout=timeout, cwd=repo)  # noqa
+        if not os.path.exists(op):
+            raise RuntimeError('run_script failed: ' + (p.stderr or '')[-800:])
+        return json.load(open(op))
